@@ -1,6 +1,6 @@
 SPECIFICATION Spec
 CONSTANTS
-  ShapeIds = {1, 2, 3, 4}
+  ShapeIds = {1, 2, 3, 4, 5}
   ScalarIds = {"i7", "s8", "w1", "bt"}
   PathClasses = {"leaf", "newkey", "container", "inconv", "unspec", "range", "kind", "thru", "deepnew"}
   MaxOps = 1
